@@ -87,7 +87,7 @@ Proof.
                 ltac:(rewrite Ic; apply forall_map_wire, forall_filter, Ab) ltac:(rewrite Ib; apply forall_map_wire, forall_filter, Ab)) as [R|(E1 & E2 & R)];
       rewrite R.
     - eexists. split; [reflexivity|]. split; [exact Sd1|]. cbn [cl_mirror with_mirror cl_in_ctl cl_in_blob with_inboxes].
-      split; [|split; reflexivity]. rewrite Im, Ic, Ib. unfold delivered_stream. rewrite feed_app. reflexivity.
+      split; [|split; reflexivity]. rewrite Im, Ic, Ib. rewrite filter_taken_blob. unfold delivered_stream. rewrite feed_app. reflexivity.
     - exists (enq_all c (pubs tr)). split; [exact Cls1|]. split; [exact Sd1|]. rewrite Im. rewrite Ic in E1. rewrite Ib in E2.
       split; [|split; [rewrite Ic; exact E1|rewrite Ib; exact E2]]. unfold delivered_stream. rewrite E1, E2. reflexivity. }
   destruct FIN as (c' & F1 & F2 & F3 & F4 & F5).
